@@ -122,6 +122,20 @@ fn launch(scn: &Scn, addr: String, done: Sender<()>) -> Box<dyn FnOnce() + Send>
             Response::new(StatusCode::OK, "long")
         })
         .with_stateless_route("/big", |_| Response::new(StatusCode::OK, vec![b'x'; BIG]))
+        // pipelined connections: `/gate` runs until the harness opens the gate (after `run` has returned),
+        // `/n/<i>` answers with its URI at once, `/ns/<i>` after `SHORT_MS`
+        .with_stateless_route("/gate", |_| {
+            let t0 = std::time::Instant::now();
+            while !gate_open() && t0.elapsed() < GATE_MAX {
+                std::thread::sleep(Duration::from_millis(1));
+            }
+            Response::new(StatusCode::OK, "gate")
+        })
+        .with_stateless_route("/n/*", |r: humphrey::http::Request| Response::new(StatusCode::OK, r.uri))
+        .with_stateless_route("/ns/*", |r: humphrey::http::Request| {
+            std::thread::sleep(Duration::from_millis(SHORT_MS));
+            Response::new(StatusCode::OK, r.uri)
+        })
         .with_websocket_route("/ws", humphrey_ws::websocket_handler(ws_handler));
     if scn.timeout_ms > 0 {
         app = app.with_connection_timeout(Some(Duration::from_millis(scn.timeout_ms)));
@@ -286,6 +300,11 @@ fn large_kinds(threads: usize, queued: usize, rng: &mut Rng) -> String {
             let at = rng.below(queued as u64) as usize;
             q[at] = k;
         }
+        // two pipelined connections (2..5 requests, any first handler) somewhere in the queue
+        for _ in 0..2 {
+            let at = rng.below(queued as u64) as usize;
+            q[at] = pipe_kind(rng.below(3) as usize, rng.below(4) as usize);
+        }
         // the last one queued is a complete request: it is answered although everything else is in front of it
         q[queued - 1] = 'S';
     }
@@ -327,6 +346,33 @@ fn scenarios(thorough: bool, seed: u64, rt: char) -> Vec<String> {
     v.push(mk("[::]", 8, 0, false, 'A', 0, "JKHOJKHOLSWLSWLS", &mut rng));
     v.push(mk("127.0.0.1", 2, 150, false, 'A', 0, "JKHLS", &mut rng));
     v.push(mk("127.0.0.1", 2, 0, true, 'A', 0, "SSSSLLLL", &mut rng));
+    // PIPELINED connections (letters `a`..`o`, see c20_scn.rs): several complete requests written before the
+    // signal, the first one short / long / gated so that the signal lands while it runs. Every kind alone ...
+    for first in 0..3 {
+        for idx in 0..4 {
+            let k = pipe_kind(first, idx);
+            v.push(mk(ips[(first + idx) % 4], 2, 0, false, 'A', 0, &k.to_string(), &mut rng));
+        }
+        // ... behind a connection that holds the only worker (threaded: the pipeline waits in the pool's queue
+        // until `run` is back and the holder is gone) ...
+        v.push(mk("127.0.0.1", 1, 0, false, 'A', 0, &format!("J{}", pipe_kind(first, [0, 1, 3][first])), &mut rng));
+        // ... and a long pipeline (64 requests)
+        v.push(mk("0.0.0.0", 2, 0, false, 'A', 0, &pipe_kind(first, 4).to_string(), &mut rng));
+    }
+    // several pipelines at once, among the other states; more of them than threads
+    v.push(mk("127.0.0.1", 2, 0, false, 'A', 0, "kfa", &mut rng));
+    v.push(mk("127.0.0.1", 2, 0, false, 'A', 0, "cSfKk", &mut rng));
+    v.push(mk("0.0.0.0", 3, 0, false, 'A', 0, "JkKgSbLl", &mut rng));
+    v.push(mk("[::]", 8, 0, false, 'A', 0, "klmnabcdfghiSW", &mut rng));
+    // pipelines placed before the signal with further connections after it; placed after / concurrently with it
+    // (then nothing is owed to them: whatever they get must still be whole)
+    v.push(mk("127.0.0.1", 2, 0, false, 'M', 1, "kS", &mut rng));
+    v.push(mk("[::1]", 2, 0, false, 'M', 2, "Slf", &mut rng));
+    v.push(mk("127.0.0.1", 2, 0, false, 'C', 0, "ak", &mut rng));
+    v.push(mk("0.0.0.0", 2, 0, false, 'B', 0, "kf", &mut rng));
+    // with a connection timeout shorter than the first handler; with the refusing condition
+    v.push(mk("127.0.0.1", 2, 150, false, 'A', 0, "lgK", &mut rng));
+    v.push(mk("127.0.0.1", 2, 0, true, 'A', 0, "kaflkafl", &mut rng));
     // large states: every worker held, 200 / 1 100 / (thorough) 5 000 further connections accepted and queued
     // (tokio: spawned and idle) when the signal is sent; capped by what the descriptor limit allows
     // (a generator of its own: the seed-chosen small scenarios of a seed stay what they were)
@@ -370,7 +416,17 @@ fn scenarios(thorough: bool, seed: u64, rt: char) -> Vec<String> {
         } as usize;
         let heavy = rng.chance(1, 3);
         let kinds: String = (0..n)
-            .map(|_| if heavy { *rng.pick(&['J', 'L', 'O', 'W', 'L']) } else { *rng.pick(&KINDS) })
+            .map(|_| {
+                if rng.chance(1, 5) {
+                    // a pipelined connection: 2..5 requests, one in eight 64
+                    let idx = if rng.chance(1, 8) { 4 } else { rng.below(4) as usize };
+                    pipe_kind(rng.below(3) as usize, idx)
+                } else if heavy {
+                    *rng.pick(&['J', 'L', 'O', 'W', 'L'])
+                } else {
+                    *rng.pick(&KINDS)
+                }
+            })
             .collect();
         let mode = *rng.pick(&['A', 'A', 'M', 'M', 'C', 'C', 'B']);
         let k = if n == 0 { 0 } else { rng.below(n as u64 + 1) as usize };
@@ -428,7 +484,30 @@ pub fn gen(out: &mut Out, thorough: bool, seed: u64) {
                 out.count(&format!("large_state_open_connections_at_signal={}", match open { 0..=255 => "<256", 256..=1099 => "256-1099", 1100..=4999 => "1100-4999", _ => ">=5000" }));
             }
             for k in &s.kinds {
-                out.count(&format!("state={}", k));
+                match pipe_of(*k) {
+                    Some((first, n)) => {
+                        out.count("state=pipelined");
+                        out.count(&format!("pipelined_requests={}", n));
+                        out.count(&format!("pipelined_first_handler={}", ["short", "long", "gated"][first]));
+                    }
+                    None => out.count(&format!("state={}", k)),
+                }
+            }
+            let codes: Vec<char> = r[5].rsplit('=').next().unwrap_or("").chars().collect();
+            let must: Vec<usize> = r[3].split(',').filter_map(|x| x.parse().ok()).collect();
+            for (i, k) in s.kinds.iter().enumerate() {
+                if pipe_of(*k).is_some() && r[5].contains("clients=") {
+                    let owed = if must.contains(&i) { "all_received_before_signal" } else { "not_owed" };
+                    out.count(&format!("pipelined_{}={}", owed, match codes.get(i) {
+                        Some('C') => "every_response_complete_in_order",
+                        Some('M') => "SOME_RESPONSES_MISSING_connection_closed",
+                        Some('P') => "TRUNCATED_or_out_of_order",
+                        Some('T') => "TIMEOUT",
+                        Some('Z') => "closed_without_bytes",
+                        Some('R') => "connect_refused",
+                        _ => "other",
+                    }));
+                }
             }
             let busy = s.kinds.iter().filter(|k| matches!(k, 'J' | 'K' | 'H' | 'L' | 'O' | 'W')).count();
             if s.rt == 't' && busy > s.threads {
@@ -452,6 +531,7 @@ pub fn gen(out: &mut Out, thorough: bool, seed: u64) {
                     'C' => out.count("inflight_response_complete"),
                     'Z' => out.count("inflight_connection_closed_without_bytes"),
                     'P' => out.count("inflight_response_TRUNCATED"),
+                    'M' => out.count("inflight_pipelined_responses_MISSING"),
                     'T' => out.count("inflight_response_TIMEOUT"),
                     'R' => out.count("connect_refused_after_shutdown"),
                     _ => {}
